@@ -84,7 +84,7 @@ async fn to<F: Future>(d: Duration, what: &str, f: F) -> Result<F::Output, Strin
     tokio::time::timeout(d, f).await.map_err(|_| format!("timeout:{what}"))
 }
 
-struct Case { path: String, limit: Option<u64>, flen: u64, id: u64, qlen: Option<u64>, ec: u32 }
+struct Case { path: String, limit: Option<u64>, flen: u64, id: u64, qlen: Option<u64>, ec: u32, burst: bool }
 
 /// aborts the per-case server tasks when the case is over
 struct Tasks(Vec<tokio::task::JoinHandle<()>>);
@@ -121,6 +121,9 @@ impl Peer {
                 Ok(Some(Err(e))) => self.dead = Some(e.to_string()),
                 Ok(Some(Ok(WsMsg::Binary(b)))) => {
                     let b: Vec<u8> = b.into();
+                    // the filler notifications of a burst case are not the message under test
+                    let filler = b.len() >= 51 && b[11] != 0 && le64(&b[24..32]) == 3 && &b[48..51] == b"/q0";
+                    if filler { continue; }
                     if b.len() >= 48 && b[11] == 0 && self.known.contains(&le64(&b[16..24])) { self.seen.push((le64(&b[16..24]), b)); } else { self.cands.push(b); }
                 }
                 Ok(Some(Ok(WsMsg::Close(_)))) => self.dead = Some("close-frame".into()),
@@ -139,8 +142,12 @@ async fn run_server_path(c: &Case) -> Result<String, String> {
         ("offreader", Some(n)) => format!("/{}", "b".repeat(n as usize - 1)),
         (_, Some(n)) => format!("/{}", "r".repeat(n as usize - 1)),
         ("offreader", None) => "/b".into(),
+        // burst: the inline handler first queues 40 small notifications, so that its response is
+        // queued behind a backlog instead of reaching an idle writer
+        ("inline", None) if c.burst => "/rb".into(),
         _ => "/r".into(),
     };
+    if c.burst && route != "/rb" { return Err("badcase:burst".into()); }
     let tlen = if is_notify { QLEN } else { route.len() as u64 };
     if c.flen < 48 + tlen { return Err("badcase:flen-too-small".into()); }
     let blen = (c.flen - 48 - tlen) as usize;
@@ -162,6 +169,10 @@ async fn run_server_path(c: &Case) -> Result<String, String> {
     let router = Router::new()
         .with_json("/k", |_| Ok(json!(1)))
         .with_json("/r", move |_| a1())
+        .with_json_ctx("/rb", { let a5 = answer.clone(); move |ctx, _| {
+            if let Some(p) = ctx.peer() { for i in 0..40u32 { let _ = p.send_notify("/q0", NotifyBody::Raw(vec![i as u8; 24], BodyFormat::RawBinary)); } }
+            a5()
+        } })
         .with_json_blocking("/b", move |_| a2())
         .with_json_ctx("/p", move |ctx, _| {
             let r = match ctx.peer() {
@@ -329,7 +340,7 @@ fn run_case(line: &str) -> String {
     let parsed = (|| -> Option<Case> {
         let limit = match f.get("limit")?.as_str() { "-" => None, s => Some(ph(s)?) };
         let qlen = match f.get("qlen") { Some(s) => Some(ph(s)?), None => None };
-        Some(Case { path: f.get("path")?.clone(), limit, flen: ph(f.get("flen")?)?, id: ph(f.get("id")?)?, qlen, ec: f.get("ec").and_then(|e| ph(e)).unwrap_or(0) as u32 })
+        Some(Case { path: f.get("path")?.clone(), limit, flen: ph(f.get("flen")?)?, id: ph(f.get("id")?)?, qlen, ec: f.get("ec").and_then(|e| ph(e)).unwrap_or(0) as u32, burst: f.get("burst").map(|b| b == "1").unwrap_or(false) })
     })();
     let Some(c) = parsed else { return "crash=badcase:parse".into() };
     if c.flen < 48 + QLEN || c.flen > (1 << 31) { return "crash=badcase:flen".into(); }
@@ -374,6 +385,14 @@ fn gen_cases(seed: u64, thorough: bool) -> Vec<String> {
                 let i = out.len();
                 out.push(format!("i={i} path={path} limit={} flen={} id={} ntf={ntf} ec=0", limit.map(hx).unwrap_or_else(|| "-".into()), hx(flen), hx(id)));
             }
+        }
+    }
+    // an oversized inline response queued behind a backlog of small notifications
+    for l in limits.iter().flatten() {
+        for flen in [*l, l + 1, l + 9, 2 * l] {
+            let id = rng.next();
+            let i = out.len();
+            out.push(format!("i={i} path=inline limit={} flen={} id={} ntf=0 ec=0 burst=1", hx(*l), hx(flen), hx(id)));
         }
     }
     // handler errors (an error response is a response like any other) around the limit
